@@ -1,5 +1,7 @@
 #![forbid(unsafe_code)]
 
+#[cfg(lelwel_verif)]
+use ::lelwel_verif_shim::std_fs as std;
 use std::path::Path;
 
 use codespan_reporting::diagnostic::Severity;
